@@ -10,7 +10,7 @@ CHECK = dict(
     floors=dict(quick=dict(evaluations=20, events=30000, distinct=8, cov={'reader_entered_while_other_readers_inside': 500, 'write_locked': 1000, 'lock_timeout': 200, 'lock_interrupted': 10, 'C_QRW_SLOWPATH': 50, 'C_RWLOCK_WAIT': 50}),
                 thorough=dict(evaluations=150, events=600000, distinct=40, cov={'reader_entered_while_other_readers_inside': 10000, 'write_locked': 20000, 'lock_timeout': 4000, 'lock_interrupted': 200, 'C_QRW_SLOWPATH': 1000, 'C_RWLOCK_WAIT': 1000})),
     assumptions=['x86-TSO hardware; weaker orderings only through TSan', 'admission after the last unlock is decided in bounded-progress form (nobody inside, a locker blocked, no progress for 5 s)'],
-    technique='runtime monitoring: reader/writer occupancy monitor at the API boundary (conservative intervals), plain payload under TSan/ASan, deadline/errno oracle, free-lock probe at quiescence, stuck detector, with stall points in the unlock/wake windows and CPU shapes',
+    technique='runtime monitoring: reader/writer occupancy monitor at the API boundary (conservative intervals), plain payload under TSan/ASan, deadline/errno oracle, free-lock probe at quiescence, stuck detector, with stall points in the unlock/wake windows and CPU shapes; plus scripted single-vCPU admission rounds judged in logical steps (all waiting readers inside after the last holder unlocked, also when a queued writer gave up)',
     level_text='Held on the seeded executions actually run: no writer was ever inside together with anyone else, readers were observed inside together, every failed lock left no trace '
                '(a zero-timeout write lock and read lock succeed at quiescence, nobody stays blocked with the lock free), ETIMEDOUT never preceded the deadline. Not a proof over all schedules.',
     level_note='Trusts the occupancy monitor (relaxed atomics, marked after lock returned / unmarked before unlock), sanitizer runtimes, OS-level stalls.',
